@@ -144,6 +144,17 @@ CLAIMED["C12"] = (
     "DESIGN.md 3 C12",
 )
 
+CLAIMED["C14"] = (
+    "bounded symbolic exploration (CrossHair closes every path) over field type x candidate values of two consecutive records x descriptors on/off x indentation; "
+    "the concrete part of a path runs the real JSON writer/reader on files",
+    "For 25 JSON-supported field types (scalar and list) and every pair of candidate values (None, empty, boundary, big integers, surrogate escapes) written as two consecutive "
+    "records, with descriptors on or off and with or without indentation, the output must be a sequence of standalone JSON documents with exactly the specified keys, must read back "
+    "with the same descriptor and deep-equal values (descriptors on), or as json/record records with the same scalar JSON values (descriptors off). Only the mapping layer is "
+    "claimed; the choice of case is the symbolic dimension (path-exhaustive), because every value crosses into the C json encoder.",
+    "Trusted: the json module (NaN/Infinity, surrogates, big integers). Outside: Windows paths/commands, values beyond the candidate table.",
+    "DESIGN.md 3 C14",
+)
+
 NOT_APPLICABLE = {
     "C13": "every operation the property constrains (datetime construction/arithmetic, fromisoformat, zoneinfo, fastavro/sqlite3 conversions) is C code; "
     "CrossHair realises each datetime component at the C constructor and the repo-side logic is two value-free ifs, so no value-level case would be decided by the solver (DESIGN.md 6)",
